@@ -159,3 +159,66 @@ Lemma inplace_not_idempotent :
   fst (flat_cluster_inplace true Upgma (1#2) (snd (flat_cluster_inplace true Upgma (1#2) ex_heap ex_mat)) ex_mat)
   <> fst (flat_cluster_inplace true Upgma (1#2) ex_heap ex_mat).
 Proof. vm_compute. discriminate. Qed.
+
+(* ------------------------------------------------------------------ *)
+(* every modelled matrix function writes to fresh locations only and its result
+   depends on the content of the matrix only *)
+
+Theorem mfun_preserves : forall f, preserves (mfun_run f).
+Proof.
+  intros f h m. destruct f as [ward meth thr|lm thr| |]; unfold mfun_run.
+  - destruct (flat_cluster_h ward meth thr h m) as [r h'] eqn:E. cbn [snd].
+    destruct (flat_cluster_h_spec ward meth thr h m) as (_ & Hlen & Hold). rewrite E in Hlen, Hold. cbn [snd] in Hlen, Hold.
+    split; assumption.
+  - cbn [snd]. split; [lia|reflexivity].
+  - cbn [snd]. split; [lia|reflexivity].
+  - unfold alloc_mat. cbn [snd]. set (v := mview h m).
+    assert (Hfresh : forall rows l, l < length h ->
+              qget (write_rows (h ++ v) (seq (length h) (length v)) rows) l = qget h l).
+    { intros rows l Hl. rewrite write_rows_other; [unfold qget; apply app_nth1; exact Hl|]. rewrite in_seq. lia. }
+    destruct (length v) as [|[|[|k]]] eqn:Ev; (split; [rewrite ?write_rows_length, app_length; lia|]).
+    + intros l Hl. unfold qget. apply app_nth1. exact Hl.
+    + intros l Hl. unfold qget. apply app_nth1. exact Hl.
+    + intros l Hl. unfold qget. apply app_nth1. exact Hl.
+    + intros l Hl. apply Hfresh. exact Hl.
+Qed.
+
+Theorem mfun_extensional : forall f, extensional (mfun_run f).
+Proof.
+  intros f h h' m E. destruct f as [ward meth thr|lm thr| |]; unfold mfun_run.
+  - pose proof (flat_cluster_h_extensional ward meth thr h h' m E) as H.
+    destruct (flat_cluster_h ward meth thr h m) as [r1 h1]. destruct (flat_cluster_h ward meth thr h' m) as [r2 h2].
+    cbn [fst] in *. rewrite H. reflexivity.
+  - cbn [fst]. rewrite E. reflexivity.
+  - cbn [fst]. rewrite E. reflexivity.
+  - unfold alloc_mat. cbn [fst]. rewrite E. reflexivity.
+Qed.
+
+(* cluster_pure / idempotent for all of them *)
+Theorem mfun_pure_twice : forall f h m,
+  wfm h m ->
+  mview (snd (mfun_run f h m)) m = mview h m
+  /\ fst (mfun_run f (snd (mfun_run f h m)) m) = fst (mfun_run f h m)
+  /\ mview (snd (mfun_run f (snd (mfun_run f h m)) m)) m = mview h m.
+Proof.
+  intros f h m Hw. split; [|split].
+  - destruct (mfun_preserves f h m) as [_ Hold]. apply mview_ext. intros l Hl. apply Hold.
+    unfold wfm in Hw. rewrite Forall_forall in Hw. apply Hw. exact Hl.
+  - apply pure_twice; [apply mfun_preserves|apply mfun_extensional|exact Hw].
+  - apply pure_twice_matrix; [apply mfun_preserves|exact Hw].
+Qed.
+
+(* the working copy of _neighbor is what makes this true: without it the caller's
+   matrix holds the scores afterwards and the second tree differs *)
+Definition nj_heap : qheap := [[0; 3#4; 7#8]; [3#4; 0; 5#4]; [7#8; 5#4; 0]]%Q.
+Definition nj_mat : list nat := [0; 1; 2].
+
+Lemma neighbor_inplace_not_pure :
+  mview (snd (neighbor_inplace nj_heap nj_mat)) nj_mat <> mview nj_heap nj_mat
+  /\ fst (neighbor_inplace (snd (neighbor_inplace nj_heap nj_mat)) nj_mat) <> fst (neighbor_inplace nj_heap nj_mat).
+Proof. split; vm_compute; discriminate. Qed.
+
+Lemma neighbor_copy_is_written :
+  snd (mfun_run MNeighbor nj_heap nj_mat) <> nj_heap
+  /\ mview (snd (mfun_run MNeighbor nj_heap nj_mat)) nj_mat = mview nj_heap nj_mat.
+Proof. split; vm_compute; [discriminate|reflexivity]. Qed.
